@@ -458,6 +458,15 @@ def _scenarios(rng, tier):
     for how in ("node", "label", "parent-none", "reparent", "replace", "relabel", "replace-by-class"):
         for starting in (False, True):
             yield {"scenario": "pending-future", "how": how, "starting": starting}
+    # pulls (outside the statement's list of operations, but a refused one must not leave temporary labels behind):
+    # an executor on every data-tree node in turn (the visiting order of the data tree is a set order), on the parent,
+    # cyclic data, and the accepted pull
+    for shape, n in (("chain", 3), ("chain", 4), ("diamond", 4), ("cycle", 3)):
+        for in_wf in (True, False):
+            for at in [None, "parent"] + list(range(n)):
+                if at == "parent" and not in_wf:
+                    continue
+                yield {"scenario": "pull", "shape": shape, "n": n, "in_wf": in_wf, "exec_at": at}
     for nested in (False, True):
         yield {"scenario": "by-reference", "nested": nested}
         for deep in (False, True):
@@ -892,6 +901,49 @@ def _run_scenario(case):
                 wf.replace_child(a, b)
             a.running = False
             stage(how, [wf, w2])
+        elif name == "pull":
+            n, shape = case["n"], case["shape"]
+            wf = cls["wf"]("w", autoload=None) if case["in_wf"] else None
+            host = wf
+            if wf is not None and shape == "diamond":
+                wf.outer = nodes_c13.MA()  # the pull happens one level down
+                host = wf.outer
+            nodes = [cls["leaf"](1, label=f"n{i}", parent=host) for i in range(n)]
+            edges = {"chain": [(i, i + 1) for i in range(n - 1)],
+                     "diamond": [(0, 1), (0, 2), (1, 3)],
+                     "cycle": [(0, 1), (1, 2), (2, 0)]}[shape]
+            for a, b in edges:
+                nodes[b].inputs.user_input.connect(nodes[a].outputs.user_input)
+            if shape == "diamond":
+                nodes[3].signals.input.run.connect(nodes[2].signals.output.ran)  # a signal edge rides along
+            roots = [wf] if wf is not None else []
+            tracked.extend(nodes + ([wf] + ([host] if host is not wf else []) if wf is not None else []))
+            at = case["exec_at"]
+            if at == "parent":
+                host.executor = nodes_c13.Manual()
+            elif at is not None:
+                nodes[at].executor = nodes_c13.Manual()
+
+            def facts():
+                out = [(x.label, getattr(x.parent, "label", None)) for x in nodes]
+                for c in ([wf] + ([host] if host is not wf else [])) if wf is not None else []:
+                    out.append((c.label, sorted((k, v.label) for k, v in c.children.items()),
+                                sorted(s.label for s in c.starting_nodes)))
+                return out
+
+            before, raised = facts(), None
+            try:
+                nodes[-1].pull()
+            except Exception as e:  # noqa: BLE001
+                raised = type(e).__name__
+            after = facts()
+            bad = _graph_scan(roots, tracked)
+            if [l for l, _p in after[:n]] != [l for l, _p in before[:n]]:
+                bad.append(["agree", f"after a pull ({'refused: ' + raised if raised else 'accepted'}) the nodes call "
+                                     f"themselves {[l for l, _p in after[:n]]} instead of {[l for l, _p in before[:n]]}"])
+            if raised and after != before:
+                bad.append(["rejected-changed", f"the pull raised {raised} but changed {before} into {after}"])
+            stages.append({"stage": f"pull:{'refused' if raised else 'accepted'}", "bad": bad})
         elif name == "by-reference":
             from concurrent.futures import ThreadPoolExecutor
 
@@ -1478,7 +1530,7 @@ def oracle(case, r):
     if "scenario" in case:
         for st in r.get("scenario", []):
             trig = "scenario:" + case["scenario"]
-            if st.get("raised") and case["scenario"] not in ("remove-running", "pending-future"):
+            if st.get("raised") and case["scenario"] not in ("remove-running", "pending-future", "pull"):
                 return [_fail("scenario-raised", 0, case, st["raised"], {"trigger": trig})]
             if st["bad"]:
                 clause, detail = st["bad"][0]
